@@ -99,6 +99,9 @@ pub fn check_pair(faulted: &DumpOutcome, twin: &DumpOutcome) -> Vec<Violation> {
         }
     }
     // nothing before the start position may change, whatever happened
+    if let Some((p, l)) = f.below_origin.first() {
+        out.push(v("C09", "bytes-before-start-modified", format!("{} bytes written at absolute offset {} although the destination was handed over at offset {}", l, p, f.origin + f.start)));
+    }
     if f.data.len() < start.min(f.pre.len()) || f.data[..start.min(f.pre.len())] != f.pre[..start.min(f.pre.len())] {
         out.push(v("C09", "bytes-before-start-modified", format!("start {}", start)));
     }
